@@ -12,7 +12,9 @@ EXPLANATION = (
     "functions (A7), so the result holds for every type nesting; recursion is handled through the "
     "functions' own contracts with the spec definitions unfolded at the terms of each query.")
 UNVERIFIED = [
-    "every other validation rule (FieldsOnCorrectType, ScalarLeafs, PossibleFragmentSpreads, ...) versus the executor",
+    "every other validation rule (FieldsOnCorrectType, ScalarLeafs, PossibleFragmentSpreads, ...) versus the executor "
+    "(the overlapping-fields rule: the wiring contracts and pair tables of C14 are checked here as well, since a merge "
+    "conflict that validation misses lets execution return a value of the wrong type for an accepted document)",
     "ProvidedRequiredArgumentsRule versus coerce_argument's required-argument raise (planned)",
     "the Sub/Compat => Valid/Conf transfer lemmas (depend on the C15 input-validity theory)",
     "shape of the response for an accepted document (BOUNDED stand-in: props/C02_ref.py over conforming data; deductively only: the sub-selection memo that assembles it is keyed by the return type and the field group, MEMO-M1/M2)",
@@ -37,7 +39,13 @@ def bounded_checks(tier, seed):
     validate() accepts is executed over conforming data and compared with the reference executor
     (props/C02_ref.py); any error, exception or deviation is reported."""
     from .C02 import bounded_checks as b
-    return b(tier, seed, pid="C13", variants="(0,)")
+    out = b(tier, seed, pid="C13", variants="(0,)")
+    # the field-merge rule is what guarantees that a response key has one shape: its bounded reference
+    # comparison (props/C14_ref.py) stands in here too
+    from .C14 import bounded_checks as b14
+    for bc in b14(tier, seed):
+        out.append(dict(bc, id=bc["id"].replace("C14/", "C13/")))
+    return out
 
 
 def _lemmas():
